@@ -26,6 +26,8 @@ import (
 	"testing"
 	"time"
 
+	sgbucket "github.com/couchbase/sg-bucket"
+	"github.com/couchbase/sync_gateway/auth"
 	"github.com/couchbase/sync_gateway/base"
 )
 
@@ -559,4 +561,252 @@ func TestVerif_C07_SeqAlloc(t *testing.T) {
 		}
 		r.flush(tw)
 	}
+}
+
+// ---------------------------------------------------------------------------------------------------------------
+// Document level (specs/SeqAlloc/SeqDoc.tla): what happens to the numbers reserved by a document write that loses
+// the CAS race (other writers commit inside the window between its callback and its CAS write - the repository's
+// own LeakyDataStore.UpdateCallback), is rejected, hits a storage error or a timeout; and by UpdatePrincipal with
+// CAS mismatches / a storage error.  Real database on Rosmar.  Recorded: every revision/principal REALLY stored
+// (read back: sequence, unused_sequences), the real counter and the unused-sequence documents after the allocator's
+// remainder is released.  The ledger is judged by Trace_SeqDoc.tla.
+
+type vC07DocStep struct {
+	A string `json:"a"`
+	K string `json:"k"`
+}
+type vC07DocScn struct {
+	Mode   string        `json:"mode"`
+	Reject bool          `json:"reject"`
+	Steps  []vC07DocStep `json:"steps"`
+	Ctr    any           `json:"ctr"`
+	Used   []any         `json:"used"`
+	PubDoc []any         `json:"pubDoc"`
+	PubRel []any         `json:"pubRel"`
+}
+
+// vC07RecStore records the unused-sequence documents the database's allocator writes.
+type vC07RecStore struct {
+	base.DataStore
+	mu   sync.Mutex
+	keys []string
+}
+
+func (s *vC07RecStore) AddRaw(ctx context.Context, k string, exp uint32, v []byte) (bool, error) {
+	added, err := s.DataStore.AddRaw(ctx, k, exp, v)
+	if err == nil && added {
+		s.mu.Lock()
+		s.keys = append(s.keys, k)
+		s.mu.Unlock()
+	}
+	return added, err
+}
+
+// vC07DocStore injects the storage outcome of the outermost document write: "err" = the write is not applied and a
+// (non-timeout) storage error is returned at attempt failAt; "timeout" = the write is applied and a timeout is reported.
+type vC07DocStore struct {
+	base.DataStore
+	key     string
+	outcome string
+	failAt  int
+	depth   int
+}
+
+func (s *vC07DocStore) WriteUpdateWithXattrs(ctx context.Context, k string, xattrKeys []string, exp uint32, previous *sgbucket.BucketDocument, opts *sgbucket.MutateInOptions, callback sgbucket.WriteUpdateWithXattrsFunc) (uint64, error) {
+	if k != s.key || s.depth > 0 || s.outcome == "" || s.outcome == "ok" {
+		return s.DataStore.WriteUpdateWithXattrs(ctx, k, xattrKeys, exp, previous, opts, callback)
+	}
+	s.depth++
+	defer func() { s.depth-- }()
+	attempt := 0
+	wrapped := func(current []byte, xattrs map[string][]byte, cas uint64) (sgbucket.UpdatedDoc, error) {
+		attempt++
+		d, err := callback(current, xattrs, cas)
+		if err == nil && s.outcome == "err" && attempt == s.failAt {
+			return d, fmt.Errorf("C07 injected storage error")
+		}
+		return d, err
+	}
+	cas, err := s.DataStore.WriteUpdateWithXattrs(ctx, k, xattrKeys, exp, previous, opts, wrapped)
+	if err == nil && s.outcome == "timeout" {
+		return 0, base.ErrTimeout
+	}
+	return cas, err
+}
+
+func TestVerif_C07_DocLedger(t *testing.T) {
+	var scns []vC07DocScn
+	vReadJSON(t, "VERIF_BEH", &scns)
+	tw := vOpenTrace(t, "VERIF_TRACE_OUT")
+	defer tw.Close()
+
+	ctx := base.TestCtx(t)
+	var db *Database
+	var collection *DatabaseCollectionWithUser
+	var cctx context.Context
+	// scenario state consulted by the storage callbacks
+	var curDoc, rev1 string
+	var envs []string
+	envIdx, busy := 0, true
+	lastSeq := uint64(0)
+	var princKey string
+	var princOutcomes []string
+
+	emitStored := func(docID string) bool {
+		doc, err := collection.GetDocument(cctx, docID, DocUnmarshalAll)
+		if err != nil || doc == nil || doc.Sequence == lastSeq {
+			return false
+		}
+		lastSeq = doc.Sequence
+		un := []int{}
+		for _, u := range doc.UnusedSequences {
+			un = append(un, int(u))
+		}
+		tw.Emit(vObj{"a": "Stored", "k": "doc", "id": docID, "seq": int(doc.Sequence), "unused": un, "rev": doc.GetRevTreeID()})
+		return true
+	}
+	updateCb := func(key string) {
+		if busy || key != curDoc || envIdx >= len(envs) {
+			return
+		}
+		busy = true
+		defer func() { busy = false }()
+		kind := envs[envIdx]
+		envIdx++
+		var err error
+		if kind == "same" {
+			_, _, err = collection.PutExistingRevWithBody(cctx, curDoc, Body{"v": "W"}, []string{"2-www", rev1}, false, ExistingVersionWithUpdateToHLV)
+		} else {
+			_, _, err = collection.PutExistingRevWithBody(cctx, curDoc, Body{"v": kind, "i": envIdx}, []string{fmt.Sprintf("2-e%d", envIdx), rev1}, false, ExistingVersionWithUpdateToHLV)
+		}
+		if err != nil {
+			t.Fatalf("VERIF-FATAL C07 concurrent writer failed: %v", err)
+		}
+		emitStored(curDoc)
+	}
+	writeCasCb := func(key string) (uint64, error) {
+		if key != princKey || len(princOutcomes) == 0 {
+			return 0, nil
+		}
+		o := princOutcomes[0]
+		princOutcomes = princOutcomes[1:]
+		switch o {
+		case "cas":
+			return 0, sgbucket.CasMismatchErr{Expected: 1, Actual: 2}
+		case "err":
+			return 0, fmt.Errorf("C07 injected storage error")
+		}
+		return 0, nil
+	}
+	tb := base.GetTestBucket(t)
+	lb := base.NewLeakyBucket(tb, base.LeakyBucketConfig{UpdateCallback: updateCb, WriteCasCallback: writeCasCb})
+	db, ctx = SetupTestDBForBucketWithOptions(t, lb, DatabaseContextOptions{AllowConflicts: base.Ptr(true)})
+	defer db.Close(ctx)
+	collection, cctx = GetSingleDatabaseCollectionWithUser(ctx, t, db)
+	if _, err := collection.UpdateSyncFun(cctx, `function(doc){ if (doc.reject) { throw({forbidden: "rejected"}); } channel("c07"); }`); err != nil {
+		t.Fatalf("VERIF-FATAL sync function: %v", err)
+	}
+	origStore := collection.dataStore
+	docStore := &vC07DocStore{DataStore: origStore} // installed only around the writer under test (it hides the view store)
+	rec := &vC07RecStore{DataStore: db.sequences.datastore}
+	db.sequences.mutex.Lock()
+	db.sequences.datastore = rec
+	db.sequences.mutex.Unlock()
+	keys := db.MetadataKeys
+	run := &vC07Run{keys: keys}
+
+	for i, sc := range scns {
+		db.sequences.releaseUnusedSequences(ctx)
+		baseSeq, err := db.sequences.getSequence(ctx)
+		if err != nil {
+			t.Fatalf("VERIF-FATAL counter: %v", err)
+		}
+		rec.mu.Lock()
+		rec.keys = nil
+		rec.mu.Unlock()
+		tw.Emit(vObj{"a": "DReset", "sc": i, "mode": sc.Mode, "base": int(baseSeq),
+			"exp": vObj{"ctr": vInt(sc.Ctr), "used": vC07Ints(sc.Used), "pubDoc": vC07Ints(sc.PubDoc), "pubRel": vC07Ints(sc.PubRel)}})
+		lastSeq = 0
+		switch sc.Mode {
+		case "doc":
+			curDoc = fmt.Sprintf("c07d%d_%d", vSeed(), i)
+			envs, envIdx = nil, 0
+			final := "fail"
+			for _, st := range sc.Steps {
+				if st.A == "Env" {
+					envs = append(envs, st.K)
+				}
+				if st.A == "Cas" {
+					final = st.K
+				} else if st.A == "Attempt" {
+					final = "fail"
+				}
+			}
+			busy = true
+			rev1, _, err = collection.Put(cctx, curDoc, Body{"v": 0})
+			if err != nil {
+				t.Fatalf("VERIF-FATAL C07 cannot create %s: %v", curDoc, err)
+			}
+			emitStored(curDoc)
+			docStore.key, docStore.outcome, docStore.failAt = curDoc, final, len(envs)+1
+			collection.dataStore = docStore
+			busy = false
+			_, _, werr := collection.PutExistingRevWithBody(cctx, curDoc, Body{"v": "W", "reject": sc.Reject}, []string{"2-www", rev1}, false, ExistingVersionWithUpdateToHLV)
+			busy = true
+			docStore.outcome = ""
+			collection.dataStore = origStore
+			if !emitStored(curDoc) {
+				tw.Emit(vObj{"a": "Failed", "k": "doc", "id": curDoc, "err": fmt.Sprint(werr)})
+			}
+		case "princ":
+			name := fmt.Sprintf("c07u%d_%d", vSeed(), i)
+			princKey = keys.UserKey(name)
+			princOutcomes = nil
+			for _, st := range sc.Steps {
+				princOutcomes = append(princOutcomes, st.K)
+			}
+			pw := "c07-password"
+			_, _, perr := db.UpdatePrincipal(ctx, &auth.PrincipalConfig{Name: &name, Password: &pw, ExplicitChannels: base.SetOf("c07")}, true, true)
+			princKey = ""
+			u, gerr := db.Authenticator(ctx).GetUser(name)
+			if gerr == nil && u != nil {
+				tw.Emit(vObj{"a": "Stored", "k": "princ", "id": name, "seq": int(u.Sequence()), "unused": []int{}})
+			} else {
+				tw.Emit(vObj{"a": "Failed", "k": "princ", "id": name, "err": fmt.Sprint(perr)})
+			}
+		default:
+			t.Fatalf("VERIF-FATAL C07 unknown scenario mode %q", sc.Mode)
+		}
+		db.sequences.releaseUnusedSequences(ctx)
+		counter, err := db.sequences.getSequence(ctx)
+		if err != nil {
+			t.Fatalf("VERIF-FATAL counter: %v", err)
+		}
+		rec.mu.Lock()
+		ks := append([]string{}, rec.keys...)
+		rec.mu.Unlock()
+		docs := [][3]int{}
+		for _, k := range ks {
+			d, ok := run.parseNotice(k)
+			raw, _, gerr := db.MetadataStore.GetRaw(ctx, k)
+			if !ok || gerr != nil {
+				continue
+			}
+			if d[2] == 1 && len(raw) == 8 {
+				s := int(binary.LittleEndian.Uint64(raw))
+				docs = append(docs, [3]int{s, s, 1})
+			} else if d[2] == 2 && len(raw) == 16 {
+				docs = append(docs, [3]int{int(binary.LittleEndian.Uint64(raw[:8])), int(binary.LittleEndian.Uint64(raw[8:])), 2})
+			}
+		}
+		tw.Emit(vObj{"a": "DQuiesce", "ctr": int(counter), "docs": docs})
+	}
+}
+
+func vC07Ints(xs []any) []int {
+	r := []int{}
+	for _, x := range xs {
+		r = append(r, vInt(x))
+	}
+	return r
 }
